@@ -32,43 +32,43 @@ pub fn all() -> Vec<Check> {
     vec![c01::CHECK, c02::CHECK, c03::CHECK, c04::CHECK, c05::CHECK, c06::CHECK, c07::CHECK, c08::CHECK, c09::CHECK, c10::CHECK, c11::CHECK, c12::CHECK, c15::CHECK, c16::CHECK, c17::CHECK, c13::CHECK, c14::CHECK]
 }
 
-/// Oracles run inside the libFuzzer targets (and when an artifact is replayed). Returns the
-/// property, sub-check and message of the first violated oracle.
-pub fn fuzz_oracle(target: &str, case: &Case, st: &mut Stats) -> Result<(), (&'static str, String, String)> {
-    let run = |id: &'static str, f: fn(&str, &Case, &mut Stats) -> Result<(), String>, st: &mut Stats| {
-        f("fuzz", case, st).map_err(|m| (id, "fuzz".to_string(), m))
+/// Oracles run inside the libFuzzer targets (and when an artifact is replayed). `GV_FUZZ_PROPS`
+/// (comma separated ids) restricts which properties' oracles run, so that a campaign started by
+/// the check of property X only ever reports violations of X. Returns the property, sub-check and
+/// message of the first violated oracle.
+pub fn fuzz_oracle(target: &str, case: &Case, st: &mut Stats, only: Option<&str>) -> Result<(), (&'static str, String, String)> {
+    let filter: Option<Vec<String>> = only.map(|s| s.split(',').map(|x| x.trim().to_string()).collect());
+    let wanted = |id: &str| filter.as_ref().map_or(true, |f| f.iter().any(|x| x == id));
+    // language-level oracles are defined for regex-crate configurations only
+    let mut lang = case.clone();
+    lang.cfg.colour = false;
+    lang.cfg.surrogates = false;
+    let anchored = !case.cfg.no_start && !case.cfg.no_end;
+    let plan: Vec<(&'static str, bool, fn(&str, &Case, &mut Stats) -> Result<(), String>, &Case)> = if target == "fuzz_build" {
+        vec![
+            ("C07", true, c07::case_fn, case),
+            ("C01", case.cfg.regex_crate(), c01::case_fn, case),
+            ("C15", true, c15::case_fn, case),
+            ("C11", case.cfg.escape, c11::case_fn, case),
+        ]
+    } else {
+        vec![
+            ("C02", case.cfg.flag_count() == 0, c02::case_fn, &lang),
+            ("C03", lang.cfg.classes() && anchored, c03::case_fn, &lang),
+            ("C05", lang.cfg.repetitions && anchored, c05::case_fn, &lang),
+            ("C13", lang.cfg.repetitions && anchored, c13::case_fn, &lang),
+            ("C06", anchored, c06::case_fn, &lang),
+            ("C08", true, c08::case_fn, &lang),
+            ("C16", true, c16::case_fn, &lang),
+        ]
     };
-    match target {
-        "fuzz_build" => {
-            run("C07", c07::case_fn, st)?;
-            if case.cfg.regex_crate() {
-                run("C01", c01::case_fn, st)?;
-            }
-            run("C15", c15::case_fn, st)?;
-            Ok(())
-        }
-        _ => {
-            // fuzz_lang: the language-level oracles
-            let mut c = case.clone();
-            c.cfg.colour = false;
-            c.cfg.surrogates = false;
-            let case = &c;
-            let run = |id: &'static str, f: fn(&str, &Case, &mut Stats) -> Result<(), String>, st: &mut Stats| {
-                f("fuzz", case, st).map_err(|m| (id, "fuzz".to_string(), m))
-            };
-            if case.cfg.flag_count() == 0 {
-                run("C02", c02::case_fn, st)?;
-            }
-            if case.cfg.classes() && !case.cfg.no_start && !case.cfg.no_end {
-                run("C03", c03::case_fn, st)?;
-            }
-            if case.cfg.repetitions && !case.cfg.no_start && !case.cfg.no_end {
-                run("C05", c05::case_fn, st)?;
-                run("C13", c13::case_fn, st)?;
-            }
-            run("C08", c08::case_fn, st)?;
-            run("C16", c16::case_fn, st)?;
-            Ok(())
+    for (id, applicable, f, c) in plan {
+        // without a filter the expensive 8-build oracle of C06 and C11 are skipped
+        let default_on = id != "C06" && id != "C11";
+        let on = if filter.is_some() { wanted(id) } else { default_on };
+        if on && applicable {
+            f("fuzz", c, st).map_err(|m| (id, "fuzz".to_string(), m))?;
         }
     }
+    Ok(())
 }
